@@ -721,3 +721,104 @@ def ops_units():
 
 
 ALL.append(ops_units)
+
+
+# ---- round trips: messages through serialize/deserialize, and through the transactional push + poll (C19, C14)
+MESSAGE_CLASSES = ["StartWorkflow", "CompleteWorkflow", "CancelWorkflow", "StartWaitingWorkflows", "StartStage", "CompleteStage",
+                   "SkipStage", "CancelStage", "RestartStage", "ResumeStage", "ContinueParentStage", "JumpToStage", "SignalStage",
+                   "CancelRegion", "AddMultiInstance", "StartTask", "RunTask", "CompleteTask", "PauseTask", "InvalidWorkflowId",
+                   "InvalidStageId", "InvalidTaskId", "InvalidTaskType"]
+METADATA = {"message_id", "created_at", "attempts", "max_attempts"}
+
+
+def _roundtrip_run(cls):
+    def run(ctx):
+        I = ctx.I
+        from pyvc.values import SFunc
+
+        msg = T.new_symbolic(I, cls, "message")
+        ctx.args["message"] = msg
+        for f in I.index.all_fields(I.index.find_class(cls)):
+            I.obj_getattr(msg, f)  # materialise every declared field
+        m, _c, node = I.index.func("stabilize.queue.sqlite.serialization:serialize_message")
+        payload = I.call_func(SFunc(node, m, None, None, None, node.name), [msg], {})
+        m2, _c2, node2 = I.index.func("stabilize.queue.sqlite.serialization:deserialize_message")
+        return I.call_func(SFunc(node2, m2, None, None, None, node2.name), [I.ops.lit(cls), payload], {})
+    return run
+
+
+def _roundtrip_post(cls):
+    def check(ctx):
+        I = ctx.I
+        if ctx.exc is not None:
+            return [("no-exception", FALSE)]
+        res = ctx.result
+        msg = ctx.args["message"]
+        goals = [("not-none", z3.Not(I.ops.is_none(res)))]
+        if not isinstance(res, SObj):
+            return goals + [("is-message-object", FALSE)]
+        goals.append(("same-class", z3.BoolVal(I.class_of(res).name == cls)))
+        for f in I.index.all_fields(I.index.find_class(cls)):
+            if f in METADATA:
+                continue
+            goals.append((f"field.{f}", I.ops.eq(I.getattr(res, f), I.getattr(msg, f))))
+        return goals
+    return check
+
+
+def _attempts_carried(ctx):
+    """C14/attempts-carried: the retry counter a message is pushed with survives the queue: what is delivered carries at
+    least that many attempts (the handler then pushes attempts + 1, so the count seen by successive executions of one
+    task strictly increases and the documented maximum is reached)."""
+    I = ctx.I
+    if ctx.exc is not None:
+        # (a UNIQUE clash of the random message_id is the only admissible failure of the push)
+        return [("no-exception", z3.BoolVal("IntegrityError" in I.exc_class_names(ctx.exc)))]
+    res = ctx.result
+    msg = ctx.args["message"]
+    if not isinstance(res, SObj):
+        return [("delivered", I.ops.is_none(res))]
+    a0 = I.ops.as_int(I.getattr(msg, "attempts"))
+    return [("delivered-attempts-at-least-pushed", I.ops.as_int(I.getattr(res, "attempts")) >= a0),
+            ("delivered-attempts-positive", I.ops.as_int(I.getattr(res, "attempts")) >= 1),
+            ("same-task", I.ops.eq(I.getattr(res, "task_id"), I.getattr(msg, "task_id"))),
+            ("same-class", z3.BoolVal(I.class_of(res).name == "RunTask"))]
+
+
+def _push_poll_run(ctx):
+    """transactional push of a RunTask, commit, then poll_one on a queue that holds nothing else deliverable."""
+    I = ctx.I
+    from pyvc.values import SFunc
+
+    txn = make_txn(ctx)
+    q = make_queue(ctx)
+    I.st.ghost["the_conn"] = I.st.objs[txn.oid].fields["_conn"]
+    msg = T.new_symbolic(I, "RunTask", "message")
+    ctx.args["message"] = msg
+    for f in I.index.all_fields(I.index.find_class("RunTask")):
+        I.obj_getattr(msg, f)
+    I.st.assume(I.ops.as_int(I.getattr(msg, "attempts")) >= 0)
+    SQL.get_db(I).table(QT).exists = z3.K(INT, False)  # the queue is otherwise empty (so the polled row is the pushed one)
+    I.call(I.getattr(txn, "push_message"), [msg], {})
+    SQL.get_db(I).commit()
+    return I.call(I.getattr(q, "poll_one"), [], {})
+
+
+def roundtrip_units():
+    from .hcommon import handler_registry  # noqa
+
+    reg = sql_registry()
+    reg.contracts["*._get_connection"] = lambda I, a, k: I.st.ghost["the_conn"]
+    out = []
+    for cls in MESSAGE_CLASSES:
+        out.append(Unit(prop="*", name=f"L3/message-roundtrip[{cls}]", func="stabilize.queue.sqlite.serialization:deserialize_message",
+                        params=[], names=STATUS_NAMES, registry=reg, replayable=False, run=_roundtrip_run(cls),
+                        obligations=[Obl("C19/messages", _roundtrip_post(cls), when="any")]))
+    out.append(Unit(prop="*", name="L1/push_message+poll_one", func=Q + "queue:SqliteQueue.poll_one", params=[], names=STATUS_NAMES,
+                    registry=reg, replayable=False, run=_push_poll_run,
+                    obligations=[Obl("C14/attempts-carried", _attempts_carried, when="any", scenario="d1_transient_retry_unbounded.py"),
+                                 Obl("C19/queue/txn-push-then-poll", _attempts_carried, when="any")]))
+    return out
+
+
+ALL.append(roundtrip_units)
